@@ -21,16 +21,17 @@ Record st := { L : Z -> status; R : Z -> status; CL : Z -> status; CR : Z -> sta
                ok : bool }.                (* false once any read saw a missing / stale entry or a gauge move was refused *)
 
 Definition stale_of (x : status) : status := match x with Absent => Absent | _ => Stale end.
+Definition stale_if (b : bool) (x : status) : status := if b then stale_of x else x.
 Definition upd (f : Z -> status) (k : Z) (v : status) : Z -> status := fun j => if j =? k then v else f j.
 Definition is_fresh (x : status) : bool := match x with Fresh => true | _ => false end.
 Definition is_present (x : status) : bool := match x with Absent => false | _ => true end.
 
 (* site n gets a new tensor: everything computed from it goes stale *)
 Definition write (n : Z) (s : st) : st :=
-  {| L := fun k => if n <=? k then stale_of (L s k) else L s k;
-     R := fun k => if k <=? n then stale_of (R s k) else R s k;
-     CL := fun j => if n <=? j - 1 then stale_of (CL s j) else CL s j;
-     CR := fun j => if j + 1 <=? n then stale_of (CR s j) else CR s j;
+  {| L := fun k => stale_if (n <=? k) (L s k);
+     R := fun k => stale_if (k <=? n) (R s k);
+     CL := fun j => stale_if (n <=? j - 1) (CL s j);
+     CR := fun j => stale_if (j + 1 <=? n) (CR s j);
      pc := pc s; ok := ok s |}.
 
 Definition set_ok (b : bool) (s : st) : st := {| L := L s; R := R s; CL := CL s; CR := CR s; pc := pc s; ok := ok s && b |}.
@@ -65,15 +66,16 @@ Inductive op :=
 Definition step1 (pre : bool) (N : Z) (o : op) (s : st) : st :=
   match o with
   | OHeff0 =>
-    match pc s with
-    | Some (n1, n2) => if (n1 =? -1) || (n2 =? N) then s else set_ok (is_fresh (L s n1) && is_fresh (R s n2)) s
-    | None => set_ok false s
-    end
+    (* outside the chain nothing is read (and nothing updated); written without duplicating the state term *)
+    set_ok (match pc s with
+            | Some (n1, n2) => ((n1 =? -1) || (n2 =? N)) || (is_fresh (L s n1) && is_fresh (R s n2))
+            | None => false
+            end) s
   | OHeff1 n => if pre then set_ok (is_fresh (L s (n - 1))) (get_FR n s) else set_ok (is_fresh (L s (n - 1)) && is_fresh (R s (n + 1))) s
   | OHeff2 n => if pre then get_FR (n + 1) (get_FL n s) else set_ok (is_fresh (L s (n - 1)) && is_fresh (R s (n + 2))) s
   | OWrite1 n => write n s
   | OWrite2 n => set_pc (Some (n, n + 1)) (write (n + 1) (write n s))
-  | OWriteC => match pc s with Some _ => s | None => set_ok false s end
+  | OWriteC => set_ok (match pc s with Some _ => true | None => false end) s
   | OOrth n to =>
     match pc s with
     | Some _ => set_ok false s
